@@ -305,6 +305,17 @@ class C08(Prop):
         for pat in NEST_PATTERNS:
             for k in (1, 2, 15, 16, 17, 18, 33):
                 ops.append(mk('dec Header b' + nestG(k, pat).hex(), k='nestG'))
+        # width and depth together: a list of n counter signatures of which one (first, middle, last) nests k further levels — within the
+        # budget as long as 1 + k <= 16, whatever n is (informed round 11: the budget divided by the width of the list)
+        sg0 = b'\x83\x40\xa0\x41\x01'
+        for n in (2, 15, 16, 17, 31, 32, 33, 48, 64):
+            for kk in (1, 7, 8, 9, 14, 15, 16):
+                for pat in (['ub'], ['pb'], ['ul', 'pb']):
+                    deep = b'\x83\x40' + nestG(kk, pat) + b'\x40'
+                    for idx in (0, n // 2, n - 1):
+                        h = b'\xa1\x07' + refcbor.head(4, n) + sg0 * idx + deep + sg0 * (n - 1 - idx)
+                        ops.append(mk('dec Header b' + h.hex(), k='wide-deep', n=n, depth=kk))
+                        if idx == 0: ops.append(mk('dec CoseSign1 b' + (b'\x84' + refcbor.head(2, len(h)) + h + b'\xa0\xf6\x40').hex(), k='wide-deep', n=n, depth=kk))
         # encoding independence: same header value in two encodings must give the same result
         for _ in range(budget(tier, 800, 10000)):
             v = g.header()
@@ -416,6 +427,16 @@ class C09(Prop):
                     ops.append(mk('dec %s b%s' % (t, (pre + hb + b'\xa0' + post).hex()), k='nest-prot', n=k))
                 ops.append(mk('dec CoseSign b%s' % (b'\x84\x40\xa0\xf6\x81\x83\x40' + h + b'\x40').hex(), k='nest-signer', n=k))
                 ops.append(mk('dec CoseEncrypt b%s' % (b'\x84\x40\xa0\xf6\x81\x83' + hb + b'\xa0\xf6').hex(), k='nest-recipient', n=k))
+        # width and depth together, at signers and recipients: n of them, one carrying a chain of k counter signatures
+        sgp = b'\x83\x40\xa0\x41\x01'; rcp_ = b'\x83\x40\xa0\xf6'
+        for n in (2, 16, 17, 32, 33):
+            for kk in (8, 9, 15, 16, 17):
+                hdeep = nestG(kk, ['ub'])
+                for idx in (0, n - 1):
+                    sl = refcbor.head(4, n) + sgp * idx + b'\x83\x40' + hdeep + b'\x40' + sgp * (n - 1 - idx)
+                    rl = refcbor.head(4, n) + rcp_ * idx + b'\x83\x40' + hdeep + b'\xf6' + rcp_ * (n - 1 - idx)
+                    ops.append(mk('dec CoseSign b' + (b'\x84\x40\xa0\xf6' + sl).hex(), k='wide-deep', n=n, depth=kk)); ops.append(mk('dec CoseEncrypt b' + (b'\x84\x40\xa0\xf6' + rl).hex(), k='wide-deep', n=n, depth=kk))
+                    ops.append(mk('dec CoseMac b' + (b'\x85\x40\xa0\xf6\x40' + rl).hex(), k='wide-deep', n=n, depth=kk))
         # long lists: every element still lands at its own index when the list crosses an array-head class or a plausible cap
         # (informed-adversary round: `.take(65536)` in the shared list converter drops signer 65537 silently)
         for n in (16, 17, 18, 24, 25, 255, 256, 257):
@@ -504,6 +525,28 @@ class C11(Prop):
                    'enc ClaimsSet (cwt t61 t61 t61 W5 W5 W5 b61 (rest))', 'enc ClaimsSet (cwt t t t W0 W0 W0 b (rest))', 'enc PartyInfo (party b0a b0a b0a)', 'enc CoseKdfContext (kdf A1 (party b0a b0a b0a) (party b0a b0a b0a) (supp i128 (ph - %s) b0a) (priv b0a b0a))' % C02.EMPTY,
                    'enc ClaimsSet (cwt - - - F3ff8000000000000 F3ff8000000000000 F3ff8000000000000 - (rest))'):
             ops.append(mk(op, k='coincide'))
+        # built values nested 15 / 16 levels deep through counter signatures, at every header slot of every structure and of its signers /
+        # recipients: the output decodes again (informed round 11: signers of a COSE_Sign given one level less)
+        E0 = C02.EMPTY
+        def deep_hdr(k, prot):
+            h = '(hdr - (crit) - b0b b b (cs) (rest))'
+            for i in range(k):
+                sgx = '(sig (ph - %s) %s b%02x)' % (h if prot(i) else E0, E0 if prot(i) else h, i)
+                h = '(hdr - (crit) - b b b (cs %s) (rest))' % sgx
+            return h
+        for kk in (15, 16):
+            for nm, prot in (('u', lambda i: False), ('p', lambda i: True), ('m', lambda i: i % 3 == 0)):
+                D = deep_hdr(kk, prot)
+                sgD = ['(sig (ph - %s) %s b01)' % (E0, D), '(sig (ph - %s) %s b01)' % (D, E0)]; rcD = ['(rcp (ph - %s) %s b01 (rcps))' % (E0, D), '(rcp (ph - %s) %s - (rcps))' % (D, E0)]
+                forms_d = [('Header', D), ('CoseSign1', '(sign1 (ph - %s) %s b70 b01)' % (E0, D)), ('CoseSign1', '(sign1 (ph - %s) %s - b01)' % (D, E0)), ('CoseMac0', '(mac0 (ph - %s) %s b70 b01)' % (D, E0)), ('CoseEncrypt0', '(enc0 (ph - %s) %s b70)' % (E0, D)),
+                           ('CoseSign', '(sign (ph - %s) %s b70 (sigs))' % (D, E0)), ('CoseEncrypt', '(enc (ph - %s) %s b70 (rcps))' % (E0, D)), ('CoseMac', '(mac (ph - %s) %s b70 b01 (rcps))' % (D, E0)),
+                           ]
+                for sg_ in sgD: forms_d += [('CoseSignature', sg_), ('CoseSign', '(sign (ph - %s) %s b70 (sigs %s))' % (E0, E0, sg_)), ('CoseSign', '(sign (ph - %s) %s b70 (sigs (sig (ph - %s) %s b00) %s))' % (E0, E0, E0, E0, sg_))]
+                for rc_ in rcD: forms_d += [('CoseRecipient', rc_), ('CoseEncrypt', '(enc (ph - %s) %s b70 (rcps %s))' % (E0, E0, rc_)), ('CoseMac', '(mac (ph - %s) %s b70 b01 (rcps %s))' % (E0, E0, rc_)),
+                                            ('CoseRecipient', '(rcp (ph - %s) %s b70 (rcps %s))' % (E0, E0, rc_)), ('CoseEncrypt', '(enc (ph - %s) %s b70 (rcps (rcp (ph - %s) %s b70 (rcps %s))))' % (E0, E0, E0, E0, rc_))]
+                forms_d += [('SuppPubInfo', '(supp i128 (ph - %s) -)' % D), ('CoseKdfContext', '(kdf A1 (party - - -) (party - - -) (supp i128 (ph - %s) -) (priv))' % D)]
+                for t_, x_ in forms_d:
+                    if x_ is not None: ops.append(mk('enc %s %s' % (t_, x_), k='deep-built', n=kk))
         # long lists inside built values: every element is emitted (counter signatures, critical labels, signers, recipients, key
         # operations would need distinct registered values, extra parameters, SuppPrivInfo)
         E = C02.EMPTY
@@ -741,6 +784,11 @@ class C13(Prop):
             for outer in (0, 61, 55799, 24, 2**32, tag + 1):
                 ops.append(mk('dect %s b%s' % (t, (refcbor.head(6, outer) + refcbor.head(6, tag) + body).hex()), k='outer-tag', must_reject=True))
                 ops.append(mk('dect %s b%s' % (t, (refcbor.head(6, outer) + refcbor.head(6, outer) + refcbor.head(6, tag) + body).hex()), k='outer-tag', must_reject=True))
+        # tag numbers that alias the registered one under a narrowing to 8 / 16 / 32 bits (informed round 11: `t as u32 != TAG as u32`)
+        for t, tag in TAGGED.items():
+            body = g.venc(g.wire(t))
+            for tg in (tag + 2**8, tag + 2**16, tag + 2**32, tag + 2**33, tag + 2**63, tag + (r.randrange(1, 2**31) << 32), (tag << 8) | tag, tag << 32, 2**64 - tag):
+                for hd in head_variants(6, tg): ops.append(mk('dect %s b%s' % (t, (hd + body).hex()), k='alias-tag', must_reject=True))
         # nesting around the parser's budget: the byte-level decoders and parse-then-convert agree there too (informed-adversary
         # round: `from_reader_with_recursion_limit(slice.len())` in read_to_value accepts what ciborium's own entry point refuses)
         for d in (254, 255, 256, 257, 258, 300, 1000):
